@@ -410,6 +410,10 @@ def parseNew (ws : List String) : Option Cfg :=
   | [loc, kind, how, timeout, limit] => do
     let loc ← parseLoc loc; let kind ← parseKind kind; let how ← parseInt how; let t ← parseInt timeout; let l ← limit.toNat?
     pure ⟨loc, kind, how, t, l⟩
+  -- `grp`: the harness runs the history under a digit-grouping global locale; the model and the spec do not depend on it
+  | [loc, kind, how, timeout, limit, "grp"] => do
+    let loc ← parseLoc loc; let kind ← parseKind kind; let how ← parseInt how; let t ← parseInt timeout; let l ← limit.toNat?
+    pure ⟨loc, kind, how, t, l⟩
   | _ => none
 
 /-- in a judge line the tokens seen in set-cookie calls of *every* answer must be remembered, also when the
@@ -432,6 +436,7 @@ def step (s : DState) (line : String) : DState × String :=
     match b.toNat?, parseInt now, parseOps ops with
     | some b, some now, some ops => let (w, o) := runReq s.trace s.w b now spec ops; ({ s with w := w }, o)
     | _, _, _ => (s, "bad-op")
+  | ["forksids"] => (s, if s.trace then "fork" else "distinct")    -- `Fresh`: two workers never issue the same identifier
   | ["drop"] => (s, if s.trace then "drop" else "ok")     -- a dropped connection is transparent: reconnect and re-send
   | ["gc", now] =>
     match parseInt now with
@@ -460,6 +465,7 @@ def step (s : DState) (line : String) : DState × String :=
       | [] => (s, "bad-op")
     | ["gc", _] => (s, "1")
     | ["drop"] => (s, "1")
+    | ["forksids"] => (s, if impl == ["distinct"] then "1" else "0 two forked workers issued the same session identifier")
     | _ => (s, "bad-op")
   | _ => (s, "bad-op")
 
